@@ -149,6 +149,26 @@ def check_property_file(prop):
     return info
 
 
+def run_coqchk(prop):
+    """independent re-check of the compiled property file and everything it depends on
+    (thorough tier); returns the context summary printed by coqchk -o"""
+    t0 = time.time()
+    try:
+        p = subprocess.run(["coqchk", "-silent", "-o", "-Q", "theories", "SV", "SV.Properties." + prop],
+                           cwd=COQ, capture_output=True, text=True, timeout=3000)
+    except subprocess.TimeoutExpired:
+        return {"ok": False, "summary": "coqchk timed out", "wall_s": round(time.time() - t0, 1)}
+    out = p.stdout + p.stderr
+    i = out.find("CONTEXT SUMMARY")
+    summary = out[i:] if i >= 0 else out[-1500:]
+    axioms = re.findall(r"^\s+([A-Za-z0-9_.']+)\s*:", summary[summary.find("* Axioms"):summary.find("* Constants")], flags=re.M) \
+        if "* Axioms" in summary else []
+    bad = [k for k in ["type-in-type", "unsafe (co)fixpoints", "positivity is assumed"]
+           if re.search(re.escape(k) + r":\s*<none>", summary) is None]
+    return {"ok": p.returncode == 0 and not bad, "axioms": axioms, "flags_not_none": bad,
+            "summary": summary[-1200:], "wall_s": round(time.time() - t0, 1)}
+
+
 # --------------------------------------------------------------------------
 # known findings
 # --------------------------------------------------------------------------
@@ -182,13 +202,16 @@ def write_replay(prop, payload, tag):
     return path
 
 
-def finish(res, proof_info, build_ok, build_log, forbidden, wall_s, checker_cmd):
+def finish(res, proof_info, build_ok, build_log, forbidden, wall_s, checker_cmd, coqchk=None):
     prop = res.prop
     known = load_known()
     violations = []
     obligations = len(proof_info["theorems"])
     discharged = sum(1 for t in proof_info["theorems"] if t["discharged"])
     proof_ok = build_ok and not forbidden and proof_info["ok"]
+    if coqchk is not None and not coqchk.get("ok"):
+        proof_ok = False
+        proof_info["log"] = (proof_info.get("log") or "") + "\ncoqchk: " + coqchk.get("summary", "")
 
     # property failures on the implementation: genuine violations unless listed
     unlisted = []
@@ -246,6 +269,7 @@ def finish(res, proof_info, build_ok, build_log, forbidden, wall_s, checker_cmd)
         "notes": res.notes,
         "forbidden_token_hits": forbidden,
         "property_file": proof_info.get("file"),
+        "coqchk": coqchk if coqchk is not None else "not run in this tier (thorough tier only)",
     }
     ev = {
         "property_id": prop,
